@@ -310,7 +310,11 @@ def x_assert(ctx, case):
                     assert_that(observed["value"], observed["m"], message, verbose)
                 twin = None
             except MismatchError as e:
-                twin = str(e)
+                try:
+                    twin = str(e)
+                except Exception as e2:  # noqa - the clause itself: str() of a MismatchError never raises
+                    twin = None
+                    ctx.check(False, "str(MismatchError)-never-raises", {"error": repr(e2), **detail()})
             except Exception as e:  # noqa - match() / describe() raising on an in-domain value: reported, not tripped over
                 twin = None
                 ctx.check(False, "assert_that.raises-iff-mismatch", {"assert_that raised": repr(e), **detail()})
